@@ -33,7 +33,7 @@ ASSUMPTIONS = [
     'text templates use only text, expressions, if, for, def and include (no macro calls: finding C11-match-range, text pipeline variant)',
 ]
 
-FUEL = 40
+FUEL = 24
 TREES = os.path.join(BUILD, 'c11')
 
 
@@ -160,6 +160,8 @@ def oracle(case, real, spec, gate=True):
     if gate and not (G.in_hypothesis(case) and G.modelled(case)):
         return None
     a, b = real['inline'], real['runtime']
+    if a[0] == 'skip' or b[0] == 'skip':
+        return None
     if a != b:
         return {'case': case, 'what': 'rendering with auto_reload off (includes inlined) equals rendering with auto_reload on',
                 'expected': {'runtime': b}, 'observed': {'inline': a}, 'sources': sources(case)}
@@ -176,6 +178,10 @@ def tree_dir(tag):
 
 def evaluate(case, tag, gate=True):
     real = G.run_real(case, tree_dir(tag))
+    if real['inline'][0] == 'skip' or real['runtime'][0] == 'skip':
+        # over the load budget on the real code: neither the specification evaluator nor the
+        # model is run on it (they would do the same unbounded amount of work)
+        return real, None, None
     spec = G.spec_render(case)
     return real, spec, oracle(case, real, spec, gate)
 
@@ -204,13 +210,19 @@ def shard(arg):
         else:
             case = G.gen_case(rng)
         cases.append(case)
-    lines = []
-    for c in cases:
-        lines.extend(model_lines(c))
-    answers = proto.run_lines(lines)
+    evald = []
     for i, case in enumerate(cases):
         res.evaluations += 1
         real, spec, fail = evaluate(case, '%s-%s-%d' % (mode, idx, i))
+        if spec is None:
+            res.count('skipped:load-budget')
+            continue
+        evald.append((case, real, spec, fail))
+    lines = []
+    for case, _, _, _ in evald:
+        lines.extend(model_lines(case))
+    answers = proto.run_lines(lines)
+    for i, (case, real, spec, fail) in enumerate(evald):
         inh = G.in_hypothesis(case) and G.modelled(case)
         res.count('hypothesis:' + ('inside' if inh else 'outside'))
         res.count('outcome:' + (real['runtime'][0] if real['runtime'][0] == 'ok' else real['runtime'][1]))
@@ -286,16 +298,21 @@ def corpus_cases():
 
 def corpus_shard(arg):
     res = Result()
-    cases = corpus_cases()
-    lines = []
-    for c in cases:
-        lines.extend(model_lines(c))
-    answers = proto.run_lines(lines)
-    for i, case in enumerate(cases):
+    evald = []
+    for i, case in enumerate(corpus_cases()):
         res.evaluations += 1
         real, spec, fail = evaluate(case, 'corpus-%d' % i)
+        if spec is None:
+            res.count('skipped:load-budget')
+            continue
         if fail:
             res.failures.append(fail)
+        evald.append((case, real))
+    lines = []
+    for case, _ in evald:
+        lines.extend(model_lines(case))
+    answers = proto.run_lines(lines)
+    for i, (case, real) in enumerate(evald):
         for j, m in enumerate(('inline', 'runtime')):
             mo = model_outcome(answers[3 * i + j])
             if mo is None:
@@ -344,7 +361,7 @@ def search(ctx, res, broken):
                 found.append(f)
         if found:
             return found
-        args = [(ctx.seed + 1000 + i, i, 400, 'in') for i in range(16)]
+        args = [(ctx.seed + 1000 + i, i, 150, 'in') for i in range(16)]
         for r in pmap('harness.props.c11', 'shard', args, procs=16):
             found.extend(r.failures)
     finally:
